@@ -45,12 +45,14 @@ type MeshDesc struct {
 }
 
 type Case struct {
-	Kind  string     `json:"kind"` // "list" | "text"
+	Kind  string     `json:"kind"` // "list" | "text" | "value"
 	Scope string     `json:"scope,omitempty"`
 	List  []MeshDesc `json:"list,omitempty"`
 	Alpha int        `json:"alpha,omitempty"` // size of the line alphabet (8 or 10)
 	Seq   []int      `json:"seq,omitempty"`
-	FS    bool       `json:"fs,omitempty"` // through obj.Load on real files
+	FS    bool       `json:"fs,omitempty"`   // through obj.Load on real files
+	Bits  uint32     `json:"bits,omitempty"` // kind "value": float32 bit pattern
+	Slot  int        `json:"slot,omitempty"` // kind "value": component slot (slotNames)
 }
 
 type checker struct {
@@ -82,6 +84,7 @@ const (
 	clFailB   = "loading a valid triangulated OBJ and saving it again neither crashes nor fails"
 	clFaces   = "loading a valid triangulated OBJ and saving it again loses or invents no face"
 	clFaceGrp = "loading a valid triangulated OBJ and saving it again keeps every face in its group"
+	clLayout  = "loading a valid triangulated OBJ loses or invents no face whether or not its last line ends in a newline, with LF or CRLF line endings"
 	clFaceMat = "a face keeps the material of the usemtl statement that precedes it inside its group"
 )
 
@@ -809,6 +812,14 @@ func (k *checker) textCase(alpha int, seq []int, fs bool) {
 		return
 	}
 
+	// the same file in the other line layouts a valid OBJ comes in
+	if !fs {
+		if why, lay := layoutAgreement(text, meshes); why != "" {
+			c.Eval(scope, "layout-mismatch")
+			viol("obj.ReadMesh", clLayout, "layout/"+lay, why)
+		}
+	}
+
 	// is what the loader returned something a writer can be blamed for?  (material ranges must fit)
 	loadOK, loadWhy := true, ""
 	for _, m := range meshes {
@@ -1160,6 +1171,9 @@ func run(c *core.Ctx) {
 	if !k.runLists() {
 		return
 	}
+	if !k.runValues(1 << 28) {
+		return
+	}
 	k.runTexts(1 << 20)
 }
 
@@ -1176,6 +1190,8 @@ func replay(c *core.Ctx) {
 		k.listCase(cs.Scope, cs.List)
 	case "text":
 		k.textCase(cs.Alpha, cs.Seq, cs.FS)
+	case "value":
+		k.valueCase(cs.Bits, cs.Slot)
 	default:
 		c.HarnessError("unknown case kind %q", cs.Kind)
 	}
